@@ -174,8 +174,9 @@ def Fault.isCallback : Fault → Bool
   | .callback _ => true
   | _ => false
 
-/-- `WriteFileWithMode(dst, writer, mode)`: result and the system calls issued -/
-def writeFile (tmp dst : Path) (N mode : Nat) (pieces : List Bytes) (fault : Fault) : Res × List Act :=
+/-- closed form of `writeFile` below (proved equal to it for every callback behaviour in `Lemmas/SafeFile.lean`,
+    `writeFile_closed`): the chunk list is computed first, the writes stop at the failing one -/
+def writeFileClosed (tmp dst : Path) (N mode : Nat) (pieces : List Bytes) (fault : Fault) : Res × List Act :=
   let fa := File.create tmp dst mode
   -- `writer(w)` then `w.Flush()`
   let w := writeAll fa.1 (attempted N pieces fault) fault.writeAt
@@ -187,6 +188,86 @@ def writeFile (tmp dst : Path) (N mode : Nat) (pieces : List Bytes) (fault : Fau
     let m := fa.1.commit (fault = .close) (fault = .rename)
     let c := m.1.close false                                   -- deferred `f.Close()`
     ((if m.2.1 ≠ .ok then m.2.1 else c.2.1), fa.2 ++ w.2 ++ m.2.2 ++ c.2.2)
+
+/-! ### `bufio.Writer` with its sticky error, the writer callback, and `WriteFileWithMode` statement by statement -/
+
+/-- what the callback does when `w.Write` returns an error -/
+inductive CbMode
+  | propagate      -- returns the error
+  | swallowStop    -- stops writing, returns nil (relies on the final Flush to report it)
+  | swallowKeep    -- ignores it, keeps calling Write for the remaining pieces, returns nil
+deriving DecidableEq, Repr
+
+/-- `bufio.Writer`: the buffered bytes, the sticky error `b.err`, and the fault oracle (`failIn = some k`: the
+    `write(2)` after `k` more successful ones fails) -/
+structure BW where
+  buf : Bytes := []
+  err : Bool := false
+  failIn : Option Nat := none
+deriving DecidableEq, Repr
+
+/-- `b.wr.Write(c)`: one `write(2)` on the temporary file; a failure sets `b.err` (Go keeps the unwritten bytes in
+    the buffer; they are never written — `Write` and `Flush` test `b.err` first — so the model drops them) -/
+def BW.sys (f : File) (b : BW) (c : Bytes) : BW × List Act :=
+  if b.failIn = some 0 then ({ buf := [], err := true, failIn := none }, (f.write c true).2)
+  else ({ b with failIn := b.failIn.map (· - 1) }, (f.write c false).2)
+
+/-- `(*bufio.Writer).Write(p)`; it returns an error iff `err` is set in the result.
+    Go: `for len(p) > b.Available() && b.err == nil {…}; if b.err != nil { return nn, b.err }; copy` -/
+def BW.write (N : Nat) (f : File) (b : BW) (p : Bytes) : BW × List Act :=
+  if b.err then (b, [])                                           -- sticky error: the file is not touched any more
+  else if p.length ≤ N - b.buf.length then ({ b with buf := b.buf ++ p }, [])
+  else if b.buf.length = 0 then b.sys f p                          -- by-pass; on failure nothing is left buffered
+  else
+    let r := ({ b with buf := [] } : BW).sys f (b.buf ++ p.take (N - b.buf.length))    -- fill the buffer, Flush
+    if r.1.err then r
+    else if (p.drop (N - b.buf.length)).length ≤ N then ({ r.1 with buf := p.drop (N - b.buf.length) }, r.2)
+    else
+      let r2 := r.1.sys f (p.drop (N - b.buf.length))
+      (r2.1, r.2 ++ r2.2)
+
+/-- `(*bufio.Writer).Flush()`: `if b.err != nil { return b.err }` comes FIRST — the sticky error is reported even when
+    nothing is buffered; it returns an error iff `err` is set in the result -/
+def BW.flush (f : File) (b : BW) : BW × List Act :=
+  if b.err then (b, [])
+  else if b.buf.length = 0 then (b, [])
+  else ({ b with buf := [] } : BW).sys f b.buf
+
+/-- the writer callback: one `w.Write` per piece; `cbFail = some j`: it returns its own error after `j` pieces -/
+def callback (N : Nat) (f : File) (cb : CbMode) : BW → Option Nat → List Bytes → BW × Res × List Act
+  | b, cbFail, [] => (b, (if cbFail.isSome then .cb else .ok), [])
+  | b, cbFail, p :: ps =>
+    if cbFail = some 0 then (b, .cb, [])
+    else
+      let r := b.write N f p
+      if r.1.err = true ∧ cb = .propagate then (r.1, .errno, r.2)
+      else if r.1.err = true ∧ cb = .swallowStop then (r.1, .ok, r.2)
+      else
+        let r2 := callback N f cb r.1 (cbFail.map (· - 1)) ps
+        (r2.1, r2.2.1, r.2 ++ r2.2.2)
+
+def Fault.cbAt : Fault → Option Nat
+  | .callback j => some j
+  | _ => Option.none
+
+/-- `WriteFileWithMode(dst, writer, mode)`: result and the system calls issued, for a callback that hands `pieces` to
+    the `bufio.Writer` and treats write errors as `cb` says -/
+def writeFile (tmp dst : Path) (N mode : Nat) (pieces : List Bytes) (cb : CbMode) (fault : Fault) : Res × List Act :=
+  let fa := File.create tmp dst mode
+  let w : BW := { failIn := fault.writeAt }                   -- bufio.NewWriterSize(f, N)
+  let c := callback N fa.1 cb w fault.cbAt pieces              -- err = writer(w)
+  if c.2.1 ≠ .ok then
+    let cl := fa.1.close false                                 -- return; deferred f.Close()
+    (c.2.1, fa.2 ++ c.2.2 ++ cl.2.2)
+  else
+    let fl := c.1.flush fa.1                                   -- err = w.Flush()
+    if fl.1.err = true then
+      let cl := fa.1.close false
+      (.errno, fa.2 ++ c.2.2 ++ fl.2 ++ cl.2.2)
+    else
+      let m := fa.1.commit (fault = .close) (fault = .rename)  -- err = f.Commit()
+      let cl := m.1.close false                                -- deferred f.Close()
+      ((if m.2.1 ≠ .ok then m.2.1 else cl.2.1), fa.2 ++ c.2.2 ++ fl.2 ++ m.2.2 ++ cl.2.2)
 
 /-- the same through the `safe.File` API without bufio: `CreateWithMode`, one `Write` per piece, then
     `Commit` + `Close` (`doCommit`) or `Close` alone (abort).  A failing `Write` is followed by `Close`. -/
